@@ -8,18 +8,59 @@ is, for every input, the function the DES theorems (C01, C05, C13, C20) are abou
 -/
 namespace BC.GenFuncs.Des
 open BC.Gen.Fn
+set_option maxRecDepth 100000
+set_option linter.unusedSimpArgs false
 
 theorem pc1_eq (x : BitVec 64) : des_pc1 x = BC.Des.pc1 x := by
-  first | rfl | (simp only [des_pc1, BC.Des.pc1, BC.Des.deltaSwap]; bv_decide)
+  simp only [des_pc1, BC.Des.pc1, BC.Des.deltaSwap] <;> bv_decide (config := { timeout := 300 })
 theorem pc2_eq (x : BitVec 64) : des_pc2 x = BC.Des.pc2 x := by
-  first | rfl | (simp only [des_pc2, BC.Des.pc2]; bv_decide)
+  simp only [des_pc2, BC.Des.pc2] <;> bv_decide (config := { timeout := 300 })
 theorem fp_eq (x : BitVec 64) : des_fp x = BC.Des.fp x := by
-  first | rfl | (simp only [des_fp, BC.Des.fp, BC.Des.deltaSwap]; bv_decide)
+  simp only [des_fp, BC.Des.fp, BC.Des.deltaSwap] <;> bv_decide (config := { timeout := 300 })
 theorem ip_eq (x : BitVec 64) : des_ip x = BC.Des.ip x := by
-  first | rfl | (simp only [des_ip, BC.Des.ip, BC.Des.deltaSwap]; bv_decide)
+  simp only [des_ip, BC.Des.ip, BC.Des.deltaSwap] <;> bv_decide (config := { timeout := 300 })
 theorem e_eq (x : BitVec 64) : des_e x = BC.Des.e x := by
-  first | rfl | (simp only [des_e, BC.Des.e]; bv_decide)
+  simp only [des_e, BC.Des.e] <;> bv_decide (config := { timeout := 300 })
 theorem p_eq (x : BitVec 64) : des_p x = BC.Des.p x := by
-  first | rfl | (simp only [des_p, BC.Des.p]; bv_decide)
+  simp only [des_p, BC.Des.p] <;> bv_decide (config := { timeout := 300 })
+
+
+/-! ### functions that read the S-box table: the regenerated table `Gen.des_SBOXES` (flattened `[[u8; 64]; 8]`) against the
+model's `SBOXES`, entry by entry, then the three functions built on it -/
+
+theorem sbox_entry : ∀ i : Fin 8, ∀ n : Fin 64,
+    BC.Gen.tblAt BC.Gen.des_SBOXES (64 * i.val + n.val) 8 = (BC.Des.SBOXES.getD i.val #[]).getD n.val 0#8 := by
+  decide +kernel
+
+theorem mask_lt (v : BitVec 64) : (v &&& 0x3f#64).toNat < 64 := by
+  rw [BitVec.toNat_and]
+  exact Nat.lt_succ_of_le Nat.and_le_right
+
+theorem sbox_at (i : Nat) (hi : i < 8) (v : BitVec 64) :
+    (BC.Gen.tblAt BC.Gen.des_SBOXES (64 * i + (v &&& 0x3f#64).toNat) 8).setWidth 64 = BC.Des.sboxAt i (v &&& 0x3f#64) := by
+  have h := sbox_entry ⟨i, hi⟩ ⟨(v &&& 0x3f#64).toNat, mask_lt v⟩
+  simp only at h
+  simp only [BC.Des.sboxAt, h]
+
+theorem apply_sboxes_eq (x : BitVec 64) : des_apply_sboxes x = BC.Des.applySboxes x := by
+  have h0 := sbox_at 0 (by omega) (x >>> 58)
+  have h1 := sbox_at 1 (by omega) (x >>> 52)
+  have h2 := sbox_at 2 (by omega) (x >>> 46)
+  have h3 := sbox_at 3 (by omega) (x >>> 40)
+  have h4 := sbox_at 4 (by omega) (x >>> 34)
+  have h5 := sbox_at 5 (by omega) (x >>> 28)
+  have h6 := sbox_at 6 (by omega) (x >>> 22)
+  have h7 := sbox_at 7 (by omega) (x >>> 16)
+  simp only [Nat.mul_zero, Nat.zero_add, Nat.mul_one, Nat.reduceMul] at h0 h1 h2 h3 h4 h5 h6 h7
+  simp only [des_apply_sboxes, BC.Des.applySboxes, BC.Des.sboxStep, h0, h1, h2, h3, h4, h5, h6, h7,
+    Nat.mul_zero, Nat.sub_zero, Nat.reduceMul, Nat.reduceSub, BitVec.zero_or]
+
+theorem f_eq (x k : BitVec 64) : des_f x k = BC.Des.f x k := by
+  have h : des_f x k = des_p (des_apply_sboxes (des_e x ^^^ k)) := rfl
+  rw [h, e_eq, apply_sboxes_eq, p_eq]; rfl
+
+theorem round_eq (x k : BitVec 64) : des_round x k = BC.Des.round x k := by
+  have h : des_round x k = (x <<< 32) ||| ((des_f (x <<< 32) k ^^^ (x &&& 0xFFFFFFFF00000000#64)) >>> 32) := rfl
+  rw [h, f_eq]; rfl
 
 end BC.GenFuncs.Des
